@@ -86,6 +86,63 @@ def r5_no_reset_on_clean_iteration(ck, cx):
     ck.floor('R5', n, 6, 'fault-free iteration paths')
 
 
+
+def r8_handler_bound_to_its_server(ck, cx, rule='R8'):
+    """asyncio front-end: the event loop creates one protocol object per connection (per endpoint for datagrams) by calling the
+    factory it was given WITHOUT arguments.  The handler reads everything it serves from `self.server` (context, unit list,
+    broadcast / ignore flags, framer class).  It is the right server only if (a) the factory handed to create_server /
+    create_datagram_endpoint builds the handler with the server object that makes the call, and (b) every constructor path of the
+    handler binds self.server to that argument -- a value left on the handler CLASS belongs to whichever server was constructed
+    last in the process."""
+    ck.rule(rule, 'asyncio: the protocol factory given to the event loop constructs the handler with the creating server, and every constructor path of the handler binds self.server to that argument')
+    from ..common import annotate
+    mod = cx.idx.mod('pymodbus.server.async_io')
+    n = 0
+    for k in mod.classes.values():
+        for fn in k.methods.values():
+            for c in ast.walk(fn.node):
+                if not (isinstance(c, ast.Call) and isinstance(c.func, ast.Attribute) and c.func.attr in ('create_server', 'create_datagram_endpoint', 'create_connection') and c.args):
+                    continue
+                fac = c.args[0]
+                body = None
+                if isinstance(fac, ast.Lambda):
+                    body = fac.body
+                elif isinstance(fac, ast.Name):
+                    for d in ast.walk(fn.node):
+                        if isinstance(d, ast.FunctionDef) and d.name == fac.id and d.body and isinstance(d.body[-1], ast.Return):
+                            body = d.body[-1].value
+                n += 1
+                ok = isinstance(body, ast.Call) and any(isinstance(a, ast.Name) and a.id == 'self' for a in list(body.args) + [kw.value for kw in body.keywords])
+                ck.saw('functions', fn.qn)
+                ck.ob(rule, fn.qn, 'the protocol factory `%s` constructs the handler with this server' % U(fac)[:40], ok,
+                      detail='handler-factory-does-not-pass-server', loc=cx.floc(fn, c),
+                      message='%s gives the event loop `%s` as protocol factory: the loop calls it without arguments, so the handler is not constructed with the '
+                              'server that accepted the connection; whatever `server` it then finds (a class attribute set by the most recently constructed '
+                              'server) decides which datastore, unit list and options answer the request' % (fn.qn, U(fac)[:60]))
+    ck.floor(rule, n, 3, 'protocol factories handed to the event loop')
+    base = cx.idx.cls('pymodbus.server.async_io.ModbusBaseRequestHandler')
+    m = 0
+    for k in [base] + cx.idx.subclasses(base):
+        init = cx.idx.find_method(k, '__init__')
+        if init is None:
+            ck.ob(rule, k.qn, 'the handler has a constructor that binds self.server', False, detail='handler-has-no-constructor', loc=k.loc)
+            continue
+        owner = init.params[1] if len(init.params) > 1 else None
+        for p in cx.enum(init, k, max_depth=3, default_kwargs=True):
+            if p.exit and p.exit[0] == 'exc':
+                continue
+            annotate(p, heap=False)
+            m += 1
+            vals = [getattr(e, '_sub', None) for e in p.ev if e.kind == 'assign' and isinstance(e.a, ast.Attribute) and U(e.a) == 'self.server']
+            ok = bool(vals) and isinstance(vals[-1], ast.Name) and vals[-1].id == owner
+            ck.ob(rule, k.qn, 'every constructor path binds self.server to the constructor argument', ok,
+                  detail='handler-server-not-bound-per-instance', loc=cx.floc(init),
+                  message='%s: a constructor path of the handler %s, so `self.server` resolves to the class attribute, which every server constructor '
+                          'overwrites: connections of an earlier server are served from the datastore and options of the latest one'
+                          % (k.qn, 'does not assign self.server' if not vals else 'assigns self.server `%s`, not the constructor argument' % U(vals[-1])[:40]))
+    ck.floor(rule, m, 3, 'constructor paths of the asyncio handlers')
+
+
 def run(ck, tier):
     cx = Ctx()
     ck.rule('R1', 'execute summaries (exception->response map, id copies, send count, context key) equal those of the reference front-end')
@@ -151,4 +208,7 @@ def run(ck, tier):
         ck.finding('R4', fnd.construct, fnd.detail, fnd.loc, fnd.message)
     ck.assume('features not all front-ends support are exempt by the property wording: broadcast rows are excluded here and decided by C10')
     ck.assume('byte-identical outputs over request histories and interleavings of connections are not decided')
+    from .. import ownership as _own
+    ck.guard(_own.rule_instance_owned, ck, cx, 'R7', _own.FRAMERS, 'framing state is no longer private to a connection', 4)
+    ck.guard(r8_handler_bound_to_its_server, ck, cx)
     return cx.idx
